@@ -96,6 +96,9 @@ Inductive ev :=
                            1+cont fragments (BLE only) *)
 | SendW (n cont j : nat) (* BLE: like Send, but the GATT write of fragment j is refused (BleakError, link up or
                            dropping); no such fragment = plain Send.  Not an event of the IP / CoAP machines *)
+| SendX (n : nat)       (* IP: a request that is cancelled at its first suspension point, i.e. (send_bytes has no
+                           await of its own) inside _send_lines, after its frames were sealed and written.  Not an
+                           event of the BLE / CoAP machines *)
 | Next                  (* the accessory's next frame is delivered *)
 | Next404               (* CoAP: the accessory's next response arrives with code 4.04 Not Found (post_bytes shuts the
                            context down and still decrypts the payload).  Not an event of the IP / BLE machines *)
@@ -166,6 +169,17 @@ Definition ip_step (s : ip) (e : ev) : ip :=
       else
         mkIp (i_ep s) (i_c2a s + k) (i_a2c s) false (i_pend s ++ [i_nreq s]) (i_srv s) (S (i_nreq s))
              (add_wire xs (add_seal xs (i_log s)))
+  | SendX n =>
+      let k := chunks n in
+      let xs := nids (i_ep s, C2A) (i_c2a s) k in
+      if i_closed s then
+        mkIp (i_ep s) (i_c2a s + k) (i_a2c s) true (i_pend s) (i_srv s) (S (i_nreq s))
+             (add_out [(i_ep s, i_nreq s, RFail)] (add_seal xs (i_log s)))
+      else
+        (* CancelledError inside _send_lines: write_eof + close; the other pending requests fail *)
+        mkIp (i_ep s) (i_c2a s + k) (i_a2c s) true [] (i_srv s) (S (i_nreq s))
+             (add_out ((i_ep s, i_nreq s, RCancel) :: outs (i_ep s) RFail (i_pend s))
+                      (add_wire xs (add_seal xs (i_log s))))
   | SendW _ _ _ | Next404 => s
   | Next => ip_deliver_at s (i_srv s)
   | Replay i => ip_deliver_at s i
@@ -288,7 +302,7 @@ Definition ble_step (s : ble) (e : ev) : ble :=
   match e with
   | Send n cont => ble_send s n cont None
   | SendW n cont j => ble_send s n cont (Some j)
-  | Next404 => s
+  | Next404 | SendX _ => s
   | Next => ble_deliver_at s (b_srv s)
   | Replay i => ble_deliver_at s i
   | ReplayOld i =>
@@ -435,7 +449,7 @@ Definition coap_step (s : coap) (e : ev) : coap :=
       | None => coap_drain (c_ep s) (c_send s) (c_recv s) (c_evt s) (c_alive s) (c_srv s) (c_esrv s)
                            (S (c_nreq s)) (c_log s) [c_nreq s]
       end
-  | SendW _ _ _ => s
+  | SendW _ _ _ | SendX _ => s
   | Next => coap_response_at s (c_srv s) false
   | Next404 => coap_response_at s (c_srv s) true
   | Replay i => coap_response_at s i false
